@@ -533,6 +533,12 @@ func genContainerOps(t *rapid.T) []COp {
 			op.S = rapid.SampledFrom([]string{"", "<x/>", "not xml", "<w:settings xmlns:w=\"" + nsW + "\"/>", "<w:numbering xmlns:w=\"" + nsW + "\"><w:num w:numId=\"1\"/></w:numbering>", "\x00\x01\x02"}).Draw(t, "extra-data")
 		case "rotate":
 			op.At = rapid.IntRange(1, 7).Draw(t, "rot")
+		case "forge":
+			op.Name = rapid.SampledFrom(baseOrder).Draw(t, "part")
+			op.S = rapid.SampledFrom(ForgeKinds).Draw(t, "forge-kind")
+		case "localhdr":
+			op.Name = rapid.SampledFrom(baseOrder).Draw(t, "part")
+			op.S = rapid.SampledFrom(LocalHdrKinds).Draw(t, "localhdr-kind")
 		}
 		ops = append(ops, op)
 	}
